@@ -41,6 +41,10 @@ func c15Build(c c15Case, now time.Time) *w.State {
 		switch c.SelShape {
 		case "in2":
 			eds.Spec.Strategy.Canary.NodeSelector = &metav1.LabelSelector{MatchExpressions: []metav1.LabelSelectorRequirement{{Key: "pool", Operator: metav1.LabelSelectorOpIn, Values: []string{"x", "y"}}}}
+		case "in-empty": // accepted by the CRD schema, not a valid requirement
+			eds.Spec.Strategy.Canary.NodeSelector = &metav1.LabelSelector{MatchExpressions: []metav1.LabelSelectorRequirement{{Key: "pool", Operator: metav1.LabelSelectorOpIn}}}
+		case "badop":
+			eds.Spec.Strategy.Canary.NodeSelector = &metav1.LabelSelector{MatchExpressions: []metav1.LabelSelectorRequirement{{Key: "pool", Operator: "Equals", Values: []string{"x"}}}}
 		case "exists+notin2":
 			eds.Spec.Strategy.Canary.NodeSelector = &metav1.LabelSelector{MatchExpressions: []metav1.LabelSelectorRequirement{{Key: "pool", Operator: metav1.LabelSelectorOpExists},
 				{Key: "pool", Operator: metav1.LabelSelectorOpNotIn, Values: []string{"a", "b"}}}}
@@ -183,7 +187,7 @@ func TestC15(t *testing.T) {
 						for _, prev := range []string{"empty", "valid", "invalid", "ghost", "all", "all-but-first"} {
 							cases = append(cases, c15Case{Nodes: append([]c15Node{}, cur...), Replicas: r, Selector: sel, Keys: keys, Prev: prev})
 							if sel && (prev == "empty" || prev == "valid") {
-								for _, shape := range []string{"in2", "exists+notin2"} {
+								for _, shape := range []string{"in2", "exists+notin2", "in-empty", "badop"} {
 									cases = append(cases, c15Case{Nodes: append([]c15Node{}, cur...), Replicas: r, Selector: sel, SelShape: shape, Keys: keys, Prev: prev})
 								}
 							}
